@@ -1,4 +1,5 @@
 import NxProofs.Admission
+import NxProofs.HonestPath
 import NxProps.C04
 
 /-!
@@ -73,6 +74,25 @@ theorem client_completes_iff (c : Conn) (data : Bytes) :
        | some _ => data = u32le 4 ++ u32le ((c.connectionCheck + 1) % 4294967296)
        | none => data = []) :=
   client_response_check c data
+
+/-- **the honest direction, end to end**: credentials holding a reference-built (C16) ticket for the server's key, not older than
+    120 s, give a connection request (`build_connection_request`) that the server's login check admits as the ticket's user with
+    the ticket's session key — and the response it sends is exactly the one the client's own check accepts. With `admit_iff`
+    and `accepted_request_is_valid` this is "admits exactly the holders of a valid, fresh ticket" in both directions. -/
+theorem honest_holder_is_admitted (s : Settings) (cfg : Prudp.Cfg) (kc : Nex.Kerberos.Cfg) (epoch : Nat) (tz : Int)
+    (key ticketKey : Bytes) (t : Nex.Kerberos.ServerTicket) (tb : Bytes) (c : Conn) (cr : Creds) (now : Time) (ts : Int)
+    (hT : Nex.Kerberos.ServerTicket.encrypt kc key ticketKey t = .ok tb)
+    (hcreds : c.credentials = some cr) (hint : cr.internal = tb) (hsk : cr.sessionKey = t.sessionKey) (hpid : cr.pid = t.source)
+    (hps : s.pidSize = kc.pidSize) (hps' : kc.pidSize = 8 ∨ kc.pidSize = 4)
+    (hpr : t.source < (if kc.pidSize = 8 then 18446744073709551616 else 4294967296))
+    (hcid : cr.cid < 4294967296) (hchk : c.connectionCheck < 4294967296)
+    (hkey : Nex.Kerberos.rc4KeyOk t.sessionKey = true) (htl : tb.length < 4294967296)
+    (hts : Nex.DateTime.timestamp tz t.timestamp = .ok ts)
+    (hfresh : ¬ ((ts + 120 - (epoch : Int)) * 1073741824 < (now : Int))) :
+    let env := mkEnv s cfg kc epoch tz
+    ∃ resp, env.loginRequest (c.buildConnectionRequest env) key now = .ok (t.source, cr.cid, t.sessionKey, resp) ∧
+      c.checkConnectionResponse resp = none :=
+  honest_path s cfg kc epoch tz key ticketKey t tb c cr now ts hT hcreds hint hsk hpid hps hps' hpr hcid hchk hkey htl hts hfresh
 
 /-! non-vacuity -/
 example : Conn.checkConnectionResponse
